@@ -5,6 +5,7 @@ import (
 	"path/filepath"
 	"strings"
 
+	"github.com/jsightapi/jsight-api-go-library/core"
 	"github.com/jsightapi/jsight-api-go-library/directive"
 	"github.com/jsightapi/jsight-api-go-library/scanner"
 	schemafs "github.com/jsightapi/jsight-schema-go-library/fs"
@@ -21,6 +22,7 @@ type c18 struct {
 	st   struct {
 		Exec, WithOccurrence, WithoutOccurrence, IncludeBannedRuns, DiskStates    int
 		ViaMacroBody, ViaIncludedFile, Direct, Singletons, LargerSets, OtherFault int
+		ReusedOptionRuns                                                          int
 		KindsBanned                                                               [nDirectiveKinds]int
 		KindsOccurred                                                             [nDirectiveKinds]int
 		Distinct, Nontrivial                                                      map[uint64]bool
@@ -56,7 +58,7 @@ func (c *c18) Stats() map[string]any {
 		"executions": c.st.Exec, "cases_with_banned_occurrence": c.st.WithOccurrence, "cases_without_banned_occurrence": c.st.WithoutOccurrence,
 		"include_banned_runs": c.st.IncludeBannedRuns, "disk_states_tried": c.st.DiskStates, "occurrence_only_in_macro_body": c.st.ViaMacroBody,
 		"occurrence_only_in_included_file": c.st.ViaIncludedFile, "occurrence_in_root": c.st.Direct, "singleton_sets": c.st.Singletons,
-		"larger_sets": c.st.LargerSets, "projects_with_another_fault": c.st.OtherFault, "kinds_banned": banned, "kinds_banned_and_occurring": occurred,
+		"larger_sets": c.st.LargerSets, "runs_with_reused_option_value": c.st.ReusedOptionRuns, "projects_with_another_fault": c.st.OtherFault, "kinds_banned": banned, "kinds_banned_and_occurring": occurred,
 		"distinct": distinctList(c.st.Distinct), "distinct_nontrivial_keys": distinctList(c.st.Nontrivial), "samples": c.st.Samples,
 	}
 }
@@ -114,8 +116,40 @@ func (c *c18) DumpCase(seed uint64, idx int) []Case {
 			}
 		}
 	}
+	if r.chance(300) {
+		// a kind that occurs only inside MACRO bodies of this project (pasted or not)
+		only := map[int]bool{}
+		outside := map[int]bool{}
+		for _, f := range sortedKeys(cs.Project.Files) {
+			oo, _, _ := scanOccurrences(f, cs.Project.content(f), f == cs.Project.absRoot())
+			for _, o := range oo {
+				if o.macro {
+					only[o.kind] = true
+				} else {
+					outside[o.kind] = true
+				}
+			}
+		}
+		var cand []int
+		for k := 0; k < nDirectiveKinds; k++ {
+			if only[k] && !outside[k] {
+				cand = append(cand, k)
+			}
+		}
+		if len(cand) > 0 {
+			banned = []int{cand[r.n(len(cand))]}
+		}
+	}
 	cs.Opts.Banned = banned
 	cs.Extra = map[string]any{"disk_seed": r.n(1 << 30)}
+	if r.chance(200) && len(banned) == 1 {
+		// option values are reused: the ban option of this case was first used together with a
+		// second ban option on another JApi (see check)
+		other := r.n(nDirectiveKinds)
+		if other != banned[0] {
+			cs.Extra["reuse_with"] = other
+		}
+	}
 	return []Case{cs}
 }
 
@@ -243,7 +277,25 @@ func (c *c18) check(cs *Case, record bool) *Case {
 			}
 		}
 	}
-	got, disk := c.exec(p, cs.Opts, cs.Env, nil, cs.Seed)
+	var got Result
+	var disk *simrt.Disk
+	if rw, ok := toInt(cs.Extra["reuse_with"]); ok && len(cs.Opts.Banned) == 1 {
+		// One option value, created once, used for two JApi values: first together with a second
+		// ban option (on a small unrelated project), then alone for the project under test.
+		shared := core.WithBannedDirectives(directive.Enumeration(cs.Opts.Banned[0]))
+		second := core.WithBannedDirectives(directive.Enumeration(rw))
+		pre := Project{Root: "/sim/pre/main.jst", Cwd: "/sim/cwd"}
+		pre.set(pre.Root, []byte("JSIGHT 0.3\n"))
+		c.st.Exec++
+		executeWith(&pre, []core.Option{core.WithFixedSeedForRegex(), shared, second}, "file", cs.Env, cs.Seed)
+		c.st.Exec++
+		got, disk = executeWith(p, []core.Option{core.WithFixedSeedForRegex(), shared}, cs.Opts.Entry, cs.Env, cs.Seed)
+		if record {
+			c.st.ReusedOptionRuns++
+		}
+	} else {
+		got, disk = c.exec(p, cs.Opts, cs.Env, nil, cs.Seed)
+	}
 	if record {
 		key := hash64(fmt.Sprint(projectDigest(p), cs.Opts.Banned))
 		c.st.Distinct[key] = true
@@ -342,8 +394,16 @@ func (c *c18) check(cs *Case, record bool) *Case {
 			ln, text := lineOf(p.content(o.file), o.offset)
 			q := strings.TrimSuffix(got.Quote, "...")
 			if int(got.Index) == o.offset && int(got.Line) == ln && strings.HasPrefix(strings.TrimLeft(text, " \t"), strings.TrimLeft(q, " \t")) {
-				located = true
-				break
+				// the file the diagnostic names must be the file of that directive: no include
+				// trace for the root file, "<file>:<line>" first for an included one
+				if o.inRoot && got.Msg == got.RawMsg {
+					located = true
+					break
+				}
+				if !o.inRoot && strings.HasPrefix(got.Msg, got.RawMsg+"\n"+o.file+":"+fmt.Sprint(ln)+"\n") {
+					located = true
+					break
+				}
 			}
 		}
 		if !located {
